@@ -73,10 +73,12 @@ Lemma lzi_dec_sim : forall early B s pend cws tail s0,
   pend ++ bits_of_bytes B = lzi_cbits cws ++ tail -> (length tail < 9)%nat ->
   lzi_hproj s0 = lzi_hproj s -> lzi_widths_ok early s0 cws ->
   snd (fst (write_bytes (lzw_step early) s B)) = snd (fst (lzi_hrun early s0 cws)) /\
-  snd (write_bytes (lzw_step early) s B) = snd (lzi_hrun early s0 cws).
+  snd (write_bytes (lzw_step early) s B) = snd (lzi_hrun early s0 cws) /\
+  (snd (write_bytes (lzw_step early) s B) = false ->
+   lzi_hproj (fst (fst (write_bytes (lzw_step early) s B))) = lzi_hproj (fst (fst (lzi_hrun early s0 cws)))).
 Proof.
   induction B as [|b t IH]; intros s pend cws tail s0 (Hinv & Hwf & Hrr & Hlt) Hok Hbits Htail Hproj Hw.
-  - cbn [write_bytes fst snd]. destruct cws as [|[c w] r]; [split; reflexivity|].
+  - cbn [write_bytes fst snd]. destruct cws as [|[c w] r]; [split; [reflexivity|split; [reflexivity|intros _; symmetry; exact Hproj]]|].
     exfalso. destruct Hw as (Ew & _ & _).
     assert (Ecs : lz_code_size s0 = lz_code_size s) by (unfold lzi_hproj in Hproj; congruence).
     apply (f_equal (@length bool)) in Hbits.
@@ -132,18 +134,18 @@ Proof.
       cbn [lzi_hrun]. cbn [fst snd] in Hwr.
       destruct (lzw_handle early s2 c) as [[s3 o1] e1]. destruct (lzw_handle early s0 c) as [[s0' o1'] e1'].
       cbn [fst snd] in *. subst o1' e1'.
-      destruct e1; [split; reflexivity|].
+      destruct e1; [split; [reflexivity|split; [reflexivity|intros Hd; discriminate Hd]]|].
       assert (HR3 : lzi_R early s3 R').
       { split; [exact Hinv3|]. split; [exact Hwf3|]. split; [exact Hrr3|]. pose proof (lzi_cs_range early s3 Hinv3). lia. }
-      destruct (IH s3 R' r tail s0' HR3 Hok ER Htail (eq_sym Hp3) (Hwr eq_refl)) as [IH1 IH2].
+      destruct (IH s3 R' r tail s0' HR3 Hok ER Htail (eq_sym Hp3) (Hwr eq_refl)) as (IH1 & IH2 & IH3).
       destruct (write_bytes (lzw_step early) s3 t) as [[s4 o2] e2]. destruct (lzi_hrun early s0' r) as [[s5 o2'] e2'].
-      cbn [fst snd] in *. subst. split; reflexivity.
+      cbn [fst snd] in *. subst. split; [reflexivity|split; [reflexivity|exact IH3]].
     + (* not yet: the byte is buffered *)
       assert (HR1 : lzi_R early (lzi_put s b) pend').
       { split; [exact Hinv|]. split; [exact Hwf1|]. split; [exact Hrr1|]. cbn [lzi_put lz_code_size]. lia. }
-      destruct (IH (lzi_put s b) pend' cws tail s0 HR1 Hok Hbits' Htail Hproj Hw) as [IH1 IH2].
+      destruct (IH (lzi_put s b) pend' cws tail s0 HR1 Hok Hbits' Htail Hproj Hw) as (IH1 & IH2 & IH3).
       destruct (write_bytes (lzw_step early) (lzi_put s b) t) as [[s4 o2] e2].
-      cbn [fst snd app] in *. split; assumption.
+      cbn [fst snd app] in *. split; [assumption|split; assumption].
 Qed.
 
 Lemma lzi_R_init : forall early, lzi_R early lzw_init [].
@@ -160,7 +162,10 @@ Qed.
    code was packed with the decoder's code size at that moment (lzi_widths_ok) and fits its width. *)
 Lemma lzw_unpack_pack_lemma : forall early cws, Forall lzi_cw_ok cws -> lzi_widths_ok early lzw_init cws ->
   snd (fst (write_bytes (lzw_step early) lzw_init (pack_codes cws 0 0 [] 0))) = snd (fst (lzi_hrun early lzw_init cws)) /\
-  snd (write_bytes (lzw_step early) lzw_init (pack_codes cws 0 0 [] 0)) = snd (lzi_hrun early lzw_init cws).
+  snd (write_bytes (lzw_step early) lzw_init (pack_codes cws 0 0 [] 0)) = snd (lzi_hrun early lzw_init cws) /\
+  (snd (write_bytes (lzw_step early) lzw_init (pack_codes cws 0 0 [] 0)) = false ->
+   lzi_hproj (fst (fst (write_bytes (lzw_step early) lzw_init (pack_codes cws 0 0 [] 0))))
+   = lzi_hproj (fst (fst (lzi_hrun early lzw_init cws)))).
 Proof.
   intros early cws Hcw Hw.
   destruct (lzi_pack_spec cws 0 0 [] 0%nat ltac:(lia) ltac:(cbn; lia) Hcw ltac:(constructor)) as (npad & Hn & Hok & Hbits).
@@ -188,18 +193,26 @@ Qed.
 (* Layer 3: the decoder inverts the reference encoder of ISO 32000-1 7.4.4, for ALL byte strings (any length:
    inputs that fill the 4096-entry table make the encoder emit a clear-table code, which the decoder obeys before
    its "table full" exception can fire; KwKwK codes; the code width changes at 511/1023/2047 minus EarlyChange). *)
+Lemma lzi_decode_state : forall early d, bytes_ok d ->
+  exists s, write_bytes (lzw_step early) lzw_init (ref_lzw_encode early d) = (s, d, false) /\ lz_eod s = true.
+Proof.
+  intros early d Hok.
+  destruct (lzw_codes_decode_encode_lemma early d Hok) as [Hw (s' & Hr & Hee)].
+  assert (Hcw : Forall lzi_cw_ok (lzi_ref_codes early d)).
+  { apply (lzi_widths_cw_ok early _ lzw_init); [destruct (lzi_R_init early) as [H _]; exact H|exact Hw|rewrite Hr; reflexivity]. }
+  destruct (lzw_unpack_pack_lemma early _ Hcw Hw) as (H1 & H2 & H3).
+  unfold ref_lzw_encode. fold (lzi_ref_codes early d).
+  rewrite Hr in H1, H2, H3. cbn [fst snd] in H1, H2, H3.
+  destruct (write_bytes (lzw_step early) lzw_init (pack_codes (lzi_ref_codes early d) 0 0 [] 0)) as [[s o] e].
+  cbn [fst snd] in H1, H2, H3. subst. exists s. split; [reflexivity|].
+  specialize (H3 eq_refl). unfold lzi_hproj in H3. congruence.
+Qed.
+
 Lemma lzw_decode_encode_lemma : forall early d, bytes_ok d ->
   lzw_run early [ref_lzw_encode early d] = (d, false).
 Proof.
-  intros early d Hok.
-  destruct (lzw_codes_decode_encode_lemma early d Hok) as [Hw (s' & Hr)].
-  assert (Hcw : Forall lzi_cw_ok (lzi_ref_codes early d)).
-  { apply (lzi_widths_cw_ok early _ lzw_init); [destruct (lzi_R_init early) as [H _]; exact H|exact Hw|rewrite Hr; reflexivity]. }
-  destruct (lzw_unpack_pack_lemma early _ Hcw Hw) as [H1 H2].
-  unfold lzw_run, ref_lzw_encode. rewrite run_chunks_single. fold (lzi_ref_codes early d).
-  rewrite Hr in H1, H2. cbn [fst snd] in H1, H2.
-  destruct (write_bytes (lzw_step early) lzw_init (pack_codes (lzi_ref_codes early d) 0 0 [] 0)) as [[s o] e].
-  cbn [fst snd] in H1, H2. subst. reflexivity.
+  intros early d Hok. destruct (lzi_decode_state early d Hok) as (s & Hs & _).
+  unfold lzw_run. rewrite run_chunks_single, Hs. reflexivity.
 Qed.
 
 (* the same for any split of the encoded stream into write() calls *)
@@ -207,4 +220,26 @@ Lemma lzw_decode_encode_chunked_lemma : forall early d cs, bytes_ok d -> concat 
   lzw_run early cs = (d, false).
 Proof.
   intros early d cs Hok Hc. rewrite chunking_lzw_lemma, Hc. apply lzw_decode_encode_lemma. exact Hok.
+Qed.
+
+(* after the EOD code the decoder ignores everything (it keeps reading codes, handleCode returns at once) *)
+Lemma lzi_eod_ignores : forall early rest s, lz_eod s = true ->
+  exists s', write_bytes (lzw_step early) s rest = (s', [], false).
+Proof.
+  induction rest as [|b t IH]; intros s He; [eexists; reflexivity|].
+  cbn [write_bytes]. rewrite lzi_step_put.
+  destruct (lz_code_size s <=? lz_bits_avail s + 8).
+  - rewrite lzi_send_eq. unfold lzw_handle.
+    replace (lz_eod (lzi_after_send (lzi_put s b))) with true by (symmetry; exact He).
+    destruct (IH (lzi_after_send (lzi_put s b)) He) as [s' Hs']. rewrite Hs'. eexists. reflexivity.
+  - destruct (IH (lzi_put s b) He) as [s' Hs']. rewrite Hs'. eexists. reflexivity.
+Qed.
+
+(* bytes after the EOD code (a trailing EOL counted in /Length, junk) do not change the result *)
+Lemma lzw_stops_at_eod_lemma : forall early d rest, bytes_ok d ->
+  lzw_run early [ref_lzw_encode early d ++ rest] = (d, false).
+Proof.
+  intros early d rest Hok. destruct (lzi_decode_state early d Hok) as (s & Hs & He).
+  unfold lzw_run. rewrite run_chunks_single, write_bytes_app, Hs. cbv iota.
+  destruct (lzi_eod_ignores early rest s He) as [s' Hs']. rewrite Hs', app_nil_r. reflexivity.
 Qed.
